@@ -346,4 +346,35 @@ def igDeadPolicy : Policy :=
   whenPolicy (.binop .lt (.ite (.lit (.bool true)) (.access (.var .context) "n") (.access (.var .principal) "x")) (.lit (.long 3)))
 example : partialPolicy igEnvHat igDeadPolicy = some igDeadPolicy := by rfl
 
+/-! ## an ignore marker NESTED in the context (open finding `nested-ignore-consumed-whole`)
+
+  `completeEnvI` gives values to ignored request PARTS; the theorems above leave a marker that is nested inside the context
+  where it is.  `partial_test.go` (ignoreAnd, ignoreOr, ignoreIfThen, ignoreHas) uses such nested markers, and `partial`
+  does answer `errIgnore` when evaluation reaches the marker ITSELF (`context.r.a == 1`, `context.r has a`).  A record or
+  set that merely CONTAINS the marker is an ordinary known value for every other operator: `isValueWithVariable`, which
+  keeps values containing a VARIABLE out of such operators, has no counterpart for the ignore marker.  Reading the
+  property's ignore clause for a part of a request part ("satisfied for at least one value of the ignored position ⇒ kept
+  and satisfied"), the code — and this model, which mirrors it — violates it. -/
+
+/-- `context = {r: {a: __cedar::ignore::""}}` -/
+def niEnvHat : Env := { ceBase with context := .record [("r", .record [("a", mkIgnore)])] }
+/-- `permit(principal, action, resource) when { context.r == {a: 1} };` -/
+def niPolicy : Policy := whenPolicy (.binop .eq (.access (.var .context) "r") (.lit (.record [("a", .long 1)])))
+/-- the ignored position given the value `1` -/
+def niEnv : Env := { ceBase with context := .record [("r", .record [("a", .long 1)])] }
+
+/-- A permit policy that is satisfied for a value of the ignored position is DROPPED: ignoring narrows instead of
+    widening.  (Replayed on the Go code: table case `nested-ignore` of the C06 harness, known finding
+    `nested-ignore-consumed-whole`.) -/
+theorem C06_nested_ignore_not_widened_counterexample :
+    ∃ (envHat env : Env) (p : Policy), p.effect = .permit ∧ p.recKeysDistinct = true ∧
+      envHat.context = .record [("r", .record [("a", mkIgnore)])] ∧
+      env = { envHat with context := .record [("r", .record [("a", .long 1)])] } ∧
+      satisfied p env = true ∧ partialPolicy envHat p = none :=
+  ⟨niEnvHat, niEnv, niPolicy, rfl, by decide +kernel, rfl, rfl, by decide +kernel, by decide +kernel⟩
+
+/-- the neighbour that reaches the marker itself IS widened: `context.r.a == 1` loses its condition -/
+example : (partialPolicy niEnvHat (whenPolicy (.binop .eq (.access (.access (.var .context) "r") "a") (.lit (.long 1))))).map
+    (·.conditions.length) = some 0 := by decide +kernel
+
 end CedarGo
